@@ -8,6 +8,7 @@ package main
 import (
 	"fmt"
 	"math/rand"
+	"sort"
 	"strings"
 
 	didtypes "github.com/SaoNetwork/sao/x/did/types"
@@ -275,6 +276,20 @@ func (w *didWorld) rotate(sid *sidIdent, mut string) {
 	}
 }
 
+// sortedKeyDids: the registered key DIDs in account-name order (map iteration order must not reach the history)
+func (w *didWorld) sortedKeyDids() []string {
+	names := make([]string, 0, len(w.keyDids))
+	for n := range w.keyDids {
+		names = append(names, n)
+	}
+	sort.Strings(names)
+	out := make([]string, 0, len(names))
+	for _, n := range names {
+		out = append(out, w.keyDids[n])
+	}
+	return out
+}
+
 func (w *didWorld) payAddr(mut string) {
 	if len(w.sids) > 0 && w.rng.Intn(2) == 0 {
 		sid := w.sids[w.rng.Intn(len(w.sids))]
@@ -316,6 +331,15 @@ func (w *didWorld) payAddr(mut string) {
 	if mut == "bad-did" {
 		did = "notadid"
 	}
+	if mut == "did-url" {
+		// somebody else's key DID, written as the DID URL found in every JWS header (did#key), by an account without one
+		for _, other := range w.sortedKeyDids() {
+			if other != kd {
+				did = other + "#" + other[len("did:key:"):]
+				break
+			}
+		}
+	}
 	res := w.r.UpdatePaymentAddress(creator, &didtypes.MsgUpdatePaymentAddress{Creator: creator.Bech(), AccountId: accountIdOf(a), Did: did})
 	if res.Class == "ok" {
 		w.keyDids[a.Name] = did
@@ -325,7 +349,7 @@ func (w *didWorld) payAddr(mut string) {
 var didBindMuts = []string{"wrong-signer", "wrong-signdata", "bad-root", "did-mismatch", "bad-accid", "other-chain", "garbage-sig", "unrelated-message", "keys-changed", "stale"}
 var didMoreMuts = []string{"wrong-signer", "garbage-sig", "stale", "dup-accdid", "unbound-creator"}
 var didRotMuts = []string{"unbound-creator", "stale", "drop-payment", "none-removed", "unhandled", "foreign-update", "bad-doc", "old-doc", "dup-seed"}
-var didPayMuts = []string{"unbound-creator", "other-chain", "second-kid", "bad-did"}
+var didPayMuts = []string{"unbound-creator", "other-chain", "second-kid", "bad-did", "did-url", "did-url"}
 
 func pick(rng *rand.Rand, l []string) string { return l[rng.Intn(len(l))] }
 
